@@ -159,7 +159,8 @@ func verifC20Modes(thorough bool) []verifC20Mode {
 		{"iinclude", func(o *RestoreOptions, p []string) { o.InsensitiveIncludes = p }, one(true), false},
 		{"iexclude", func(o *RestoreOptions, p []string) { o.InsensitiveExcludes = p }, one(true), true},
 	}
-	if thorough {
+	// (the mixed modes differ from the plain ones only for sets of two patterns; the caller skips them otherwise)
+	if true {
 		l = append(l,
 			verifC20Mode{"include+iinclude", func(o *RestoreOptions, p []string) {
 				o.Includes = p[:1]
@@ -394,6 +395,9 @@ func TestVerif_C20(t *testing.T) {
 					return
 				}
 				for _, mode := range modes {
+					if strings.Contains(mode.name, "+") && len(ps) < 2 {
+						continue // identical to the plain mode
+					}
 					lists := mode.lists(ps)
 					for _, pre := range pres {
 						n++
